@@ -64,6 +64,16 @@ def gen_cases(tier, seed):
             yield {'limit': lim, 'content': 'two-files', 'handler': 'output', 'style': 'static', 'passing': 'kw', 'cas': cas}
             yield {'limit': lim, 'content': 'twice', 'handler': 'output', 'style': 'inst', 'passing': 'pos', 'cas': cas}
             yield {'limit': lim, 'content': 'twice', 'handler': 'input', 'style': 'inst', 'passing': 'kw', 'cas': cas}
+            # the same recorded input fetched twice in one replay, each time to be restored at a different path
+            yield {'limit': lim, 'content': 'twice', 'handler': 'input', 'style': 'inst', 'passing': 'pos', 'cas': cas, 'two_dst': True}
+            yield {'limit': lim, 'content': 'twice', 'handler': 'input', 'style': 'static', 'passing': 'kw', 'cas': cas, 'two_dst': True}
+    for lim in ('16B', 'default', 'zero'):
+        for cname in ('nul', 'limit', 'limit+1', 'empty', 'binary', 'pattern1k'):
+            if cname not in contents(LIMITS[lim][2]) or (cname.startswith('limit') and LIMITS[lim][2] >= MB):
+                continue
+            for style, passing in (('inst', 'pos'), ('static', 'kw')):
+                # a LONGER stale file is already at the path the replayed call names
+                yield {'limit': lim, 'content': cname, 'handler': 'input', 'style': style, 'passing': passing, 'cas': 'mem', 'stale': 'longer'}
 
 
 def make_op(tr, limit_spec):
@@ -189,13 +199,16 @@ def run_case(case):
         dst = os.path.join(scratch, 'replayed_target.bin') if not case.get('bare') else 'replayed_target.bin'
         if case['handler'] == 'input' and not twice:   # a stale file of the same size, other content, is already in place
             with real_open(dst, 'wb') as f:
-                f.write(b'Z' * len(PLACEHOLDER if len(content) > limit_bytes else content))
-        plan2 = [call(dst)] if not twice else [call(dst), call(dst)]
+                f.write(b'Z' * (len(PLACEHOLDER if len(content) > limit_bytes else content) + (9 if case.get('stale') == 'longer' else 0)))
+        dst2 = dst + '.second'
+        plan2 = [call(dst)] if not twice else [call(dst), call(dst2 if case.get('two_dst') else dst)]
         snaps = []
 
         def pf(recording):
             Op2.bodies[:] = []
             plan3 = [(f_, a_, k_, (lambda: snaps.append(real_open(dst, 'rb').read() if os.path.exists(dst) else None))) for f_, a_, k_, _ in plan2]
+            if case.get('two_dst'):
+                plan3[1] = plan3[1][:3] + ((lambda: snaps.append(real_open(dst2, 'rb').read() if os.path.exists(dst2) else None)),)
             pf.out = Op2().execute(plan3)
         pf.out = None
         try:
@@ -210,8 +223,9 @@ def run_case(case):
         if Op2.bodies:
             viols.append(viol('body-executed-in-replay', 'intercepted bodies ran during replay', [], list(Op2.bodies)))
         if case['handler'] == 'input':
-            if pf.out != [dst] * len(plan2):
-                viols.append(viol('input:returned-path', 'a replayed file input returns the path named by the replayed call', [dst] * len(plan2), pf.out))
+            exp_paths = [dst, dst2] if case.get('two_dst') else [dst] * len(plan2)
+            if pf.out != exp_paths:
+                viols.append(viol('input:returned-path', 'a replayed file input returns the path named by the replayed call', exp_paths, pf.out))
             got = snaps[-1] if snaps else None
             exp_last = expected[-1]   # same key: the last recorded content answers (an input is a function of alias + captured args)
             if got != exp_last:
@@ -231,6 +245,8 @@ def run_case(case):
                         case['limit'], case['content'], len(content)), [_short(x) for x in expected], [_short(x) for x in got]))
                 if name == 'recorded' and holders:
                     out_path = 'holder_out.bin' if case.get('bare') else os.path.join(scratch, 'holder_out.bin')
+                    with real_open(out_path, 'wb') as f:   # whatever was at the target before is replaced, not patched
+                        f.write(b'Y' * (len(expected[-1]) + 5))
                     try:
                         holders[-1].to_file(out_path)
                         written = real_open(out_path, 'rb').read()
